@@ -157,35 +157,46 @@ Section Lens.
     | S n', y :: l' => y :: remove_at n' l'
     end.
 
+  (** SurfaceFactory._configure_material: (medium in front, medium behind, material store) *)
+  Definition cfg_material (l : lens) (idx : Z) (m : matspec T) : option (nat * nat * list T) :=
+    let fresh := List.length (mats l) in
+    if (idx =? 0)%Z then
+      match m with
+      | MAir => Some (fresh, fresh, mats l ++ [ofZ 1])        (* ObjectSurface: material_pre = material_post *)
+      | MIdeal n => Some (fresh, fresh, mats l ++ [n])
+      | MMirror => None                                        (* material_post would be None *)
+      end
+    else
+      match nth_error (surfs l) (Z.to_nat (idx - 1)) with
+      | None => None
+      | Some p =>
+          let pre := s_mpost p in                               (* previous_surface.material_post, the same object *)
+          match m with
+          | MAir => Some (pre, fresh, mats l ++ [ofZ 1])
+          | MIdeal n => Some (pre, fresh, mats l ++ [n])
+          | MMirror => Some (pre, pre, mats l)
+          end
+      end.
+
+  (** which geometry class the factory builds *)
+  Definition cfg_geometry (kind : gkind) (R k : T) (c : list T) : gkind * T * option T * list T :=
+    match kind with
+    | GEven => (GEven, R, Some k, c)
+    | GOther => (GOther, R, Some k, c)
+    | _ => if isinf_ R then (GPlane, inf_, None, []) else (GStd, R, Some k, [])
+    end.
+
   Definition add_surface (l : lens) (idx : Z) (kind : gkind) (R k : T) (c : list T) (t : T) (m : matspec T)
              (stop : bool) (dx dy rx ry : T) : option lens :=
     if (idx <? 0)%Z || (nsurf l <? idx)%Z then None else
-    let '(x, y, z, rx', ry') := k_c01_cfg_cs O idx t dx dy rx ry (positions l) (last_t l) in
-    (* _configure_material *)
-    let pre : option nat :=
-      if (idx =? 0)%Z then None
-      else match nth_error (surfs l) (Z.to_nat (idx - 1)) with Some p => Some (s_mpost p) | None => None end in
-    let fresh := List.length (mats l) in
-    let post_mats : option (nat * list T) :=
-      match m with
-      | MAir => Some (fresh, mats l ++ [ofZ 1])
-      | MIdeal n => Some (fresh, mats l ++ [n])
-      | MMirror => match pre with Some p => Some (p, mats l) | None => None end
-      end in
-    match post_mats with
+    match cfg_material l idx m with
     | None => None
-    | Some (post, mats') =>
-        let refl := match m with MMirror => true | _ => false end in
-        (* geometry *)
-        let '(g, R', k', c') :=
-          match kind with
-          | GEven => (GEven, R, Some k, c)
-          | GOther => (GOther, R, Some k, c)
-          | _ => if isinf_ R then (GPlane, inf_, None, []) else (GStd, R, Some k, [])
-          end in
+    | Some (pre, post, mats') =>
+        let '(x, y, z, rx', ry') := k_c01_cfg_cs O idx t dx dy rx ry (positions l) (last_t l) in
+        let '(g, R', k', c') := cfg_geometry kind R k c in
         let is_obj := (idx =? 0)%Z in
-        let new := mkS x y z rx' ry' g R' k' c'
-                       (if is_obj then post else match pre with Some p => p | None => post end) post
+        let refl := match m with MMirror => true | _ => false end in
+        let new := mkS x y z rx' ry' g R' k' c' pre post
                        (if is_obj then false else stop) (if is_obj then false else refl) is_obj in
         let olds := if s_stop new then map (fun s => with_stop s false) (surfs l) else surfs l in
         Some (mkL (insert_at (Z.to_nat idx) new olds) mats' t (waves l) (prims l) (pickups l) (solves l) (ap l))
